@@ -868,6 +868,58 @@ func c16Scale(c *core.Ctx, fc string, sc *impl.Scratch) {
 			list = append(list, job{fmt.Sprintf("if/else blocks nested %d deep", d), sb.String(), nil, "deep-nesting"})
 		}
 	}
+	// staircases (after seed C16h): block constructs nested through ONE position - a match that is the whole body of
+	// the first (or the last) arm of the previous match, for union and string matches; an if that is the whole
+	// then-branch of the previous one; applications nested in the argument.  A pass that looks at a sub-expression twice per level (typing it once to choose and once
+	// to use) doubles per level: 20 levels are slow, 40 never end.  Linear on the pinned tree (40 levels: milliseconds).
+	{
+		stairs := []int{10, 20, 30, 40, 100}
+		if c.Thorough() {
+			stairs = append(stairs, 200, 300)
+		}
+		var matchFirst, matchLast, smatchFirst, smatchLast, ifThen func(d int, ind string) string
+		matchFirst = func(d int, ind string) string {
+			if d == 0 {
+				return ind + "1\n"
+			}
+			return ind + "match u with\n" + ind + "| A ->\n" + matchFirst(d-1, ind+"  ") + ind + "| B -> 0\n"
+		}
+		matchLast = func(d int, ind string) string {
+			if d == 0 {
+				return ind + "1\n"
+			}
+			return ind + "match u with\n" + ind + "| B -> 0\n" + ind + "| A ->\n" + matchLast(d-1, ind+"  ")
+		}
+		smatchFirst = func(d int, ind string) string {
+			if d == 0 {
+				return ind + "1\n"
+			}
+			return ind + "match s with\n" + ind + "| \"a\" ->\n" + smatchFirst(d-1, ind+"  ") + ind + "| _ -> 0\n"
+		}
+		smatchLast = func(d int, ind string) string {
+			if d == 0 {
+				return ind + "1\n"
+			}
+			return ind + "match s with\n" + ind + "| \"a\" -> 0\n" + ind + "| _ ->\n" + smatchLast(d-1, ind+"  ")
+		}
+		ifThen = func(d int, ind string) string {
+			if d == 0 {
+				return ind + "1\n"
+			}
+			return ind + "if b then\n" + ifThen(d-1, ind+"  ") + ind + "else\n" + ind + "  0\n"
+		}
+		head := "package main\n\ntype U =\n  | A\n  | B\n\nlet idn (x:int) =\n  x\n\nlet f (u:U) (s:string) (b:bool) =\n"
+		for _, d := range stairs {
+			list = append(list,
+				job{fmt.Sprintf("staircase: union matches nested %d deep in the first arm", d), head + matchFirst(d, "  "), []string{"func f"}, "staircase"},
+				job{fmt.Sprintf("staircase: union matches nested %d deep in the last arm", d), head + matchLast(d, "  "), []string{"func f"}, "staircase"},
+				job{fmt.Sprintf("staircase: string matches nested %d deep in the first arm", d), head + smatchFirst(d, "  "), []string{"func f"}, "staircase"},
+				job{fmt.Sprintf("staircase: string matches nested %d deep in the default arm", d), head + smatchLast(d, "  "), []string{"func f"}, "staircase"},
+				job{fmt.Sprintf("staircase: ifs nested %d deep in the then-branch", d), head + ifThen(d, "  "), []string{"func f"}, "staircase"},
+				job{fmt.Sprintf("staircase: applications nested %d deep in the argument", d), head + "  " + strings.Repeat("idn (", d) + "1" + strings.Repeat(")", d) + "\n", []string{"func f"}, "staircase"},
+			)
+		}
+	}
 	jobs := make(chan job, 16)
 	var wg sync.WaitGroup
 	for w := 0; w < c.Workers; w++ {
@@ -896,7 +948,7 @@ func c16Scale(c *core.Ctx, fc string, sc *impl.Scratch) {
 				}
 				c.Outcome(o.class)
 				c.Hist("outcome_counts", "scale:"+o.class, 1)
-				if o.class == "ok" || (o.class == "rejected" && j.class == "deep-nesting") {
+				if o.class == "ok" || (o.class == "rejected" && (j.class == "deep-nesting" || j.class == "staircase")) {
 					continue
 				}
 				sig := "C16:" + o.class + ":" + j.class
